@@ -47,6 +47,7 @@ pub struct Inner {
     logs: Vec<(String, String)>,
     counters: HashMap<(String, OpKind), u32>,
     plan: HashMap<(String, OpKind, u32), FaultKind>,
+    persistent_plan: Vec<(String, OpKind, u32, FaultKind)>,
     read_chunking: HashMap<String, ChunkPolicy>,
     write_chunking: HashMap<String, ChunkPolicy>,
     fired: Vec<Fired>,
@@ -103,6 +104,15 @@ struct JobPtr(*const (dyn Fn(Range<usize>) + Sync));
 // before it returns, so the pointer never outlives the borrow it was made from.
 unsafe impl Send for JobPtr {}
 
+fn norm_path(path: &Path) -> String {
+    let s = path.to_string_lossy();
+    let mut t: &str = &s;
+    while let Some(rest) = t.strip_prefix("./") {
+        t = rest;
+    }
+    t.to_string()
+}
+
 fn errno(code: i32) -> io::Error {
     io::Error::from_raw_os_error(code)
 }
@@ -152,8 +162,13 @@ impl SimWorld {
             }
         }
         let mut plan = HashMap::new();
+        let mut persistent_plan = vec![];
         for f in &sc.faults {
-            plan.insert((f.target.clone(), f.op, f.nth), f.kind.clone());
+            if f.persistent {
+                persistent_plan.push((f.target.clone(), f.op, f.nth, f.kind.clone()));
+            } else {
+                plan.insert((f.target.clone(), f.op, f.nth), f.kind.clone());
+            }
         }
         let mut read_chunking = HashMap::new();
         let mut write_chunking = HashMap::new();
@@ -180,6 +195,7 @@ impl SimWorld {
             logs: vec![],
             counters: HashMap::new(),
             plan,
+            persistent_plan,
             read_chunking,
             write_chunking,
             fired: vec![],
@@ -458,7 +474,12 @@ impl SimWorld {
             *c += 1;
             n
         };
-        let fault = g.plan.get(&(target.to_string(), op, nth)).cloned();
+        let fault = g.plan.get(&(target.to_string(), op, nth)).cloned().or_else(|| {
+            g.persistent_plan
+                .iter()
+                .find(|(t, o, from, _)| t == target && *o == op && nth >= *from)
+                .map(|x| x.3.clone())
+        });
         if let Some(k) = &fault {
             g.fired.push(Fired {
                 target: target.to_string(),
@@ -694,7 +715,7 @@ impl World for WorldRef {
 
     fn open(&self, path: &Path, flags: &OpenFlags) -> io::Result<Handle> {
         let w = self.0;
-        let p = path.to_string_lossy().to_string();
+        let p = norm_path(path);
         let (mut g, seq, _nth, fault) = w.begin(&p, OpKind::Open, "open");
         SimWorld::check_path(&mut g, &p);
         if g.failed_in_group.get(&me()).copied().unwrap_or(false) {
@@ -798,6 +819,7 @@ impl World for WorldRef {
             let len = node.bytes.len() as u64;
             let avail = len.saturating_sub(pos);
             let n = (buf.len() as u64).min(avail).min(limit) as usize;
+            let short = (n as u64) < (buf.len() as u64).min(avail);
             buf[..n].copy_from_slice(&node.bytes[pos as usize..pos as usize + n]);
             let end = pos + n as u64;
             if n > 0 && (end == 1 || end == 2) && len >= 3 {
@@ -809,6 +831,9 @@ impl World for WorldRef {
                 }
             }
             g.handles.get_mut(&h).unwrap().pos = end;
+            if short {
+                SimWorld::probe(&mut g, "short_read_delivered");
+            }
             Ok(n)
         })();
         let res = match &result {
@@ -850,6 +875,9 @@ impl World for WorldRef {
                 None => {}
             }
             let n = (buf.len() as u64).min(limit) as usize;
+            if n < buf.len() {
+                SimWorld::probe(&mut g, "short_write_accepted");
+            }
             let node = g.files.get_mut(&path).ok_or(libc::EIO)?;
             if append {
                 pos = node.bytes.len() as u64;
@@ -1031,7 +1059,7 @@ impl World for WorldRef {
 
     fn path_len(&self, path: &Path) -> io::Result<u64> {
         let w = self.0;
-        let p = path.to_string_lossy().to_string();
+        let p = norm_path(path);
         let (mut g, seq, _, fault) = w.begin(&p, OpKind::Len, "path_len");
         SimWorld::check_path(&mut g, &p);
         let r = match (&fault, g.files.get(&p)) {
@@ -1049,8 +1077,8 @@ impl World for WorldRef {
 
     fn rename(&self, from: &Path, to: &Path) -> io::Result<()> {
         let w = self.0;
-        let f = from.to_string_lossy().to_string();
-        let t = to.to_string_lossy().to_string();
+        let f = norm_path(from);
+        let t = norm_path(to);
         let (mut g, seq, _, fault) = w.begin(&t, OpKind::Rename, "rename");
         let r: Result<(), i32> = (|| {
             if let Some(k) = &fault {
@@ -1069,7 +1097,7 @@ impl World for WorldRef {
 
     fn remove_file(&self, path: &Path) -> io::Result<()> {
         let w = self.0;
-        let p = path.to_string_lossy().to_string();
+        let p = norm_path(path);
         let (mut g, seq, _, fault) = w.begin(&p, OpKind::Remove, "remove");
         let r: Result<(), i32> = (|| {
             if let Some(k) = &fault {
@@ -1097,6 +1125,9 @@ impl World for WorldRef {
             }
             let avail = g.sc.stdin.len() as u64 - pos;
             let n = (buf.len() as u64).min(avail).min(limit) as usize;
+            if (n as u64) < (buf.len() as u64).min(avail) {
+                SimWorld::probe(&mut g, "short_read_delivered");
+            }
             let p = pos as usize;
             buf[..n].copy_from_slice(&g.sc.stdin[p..p + n]);
             let end = p + n;
@@ -1140,6 +1171,9 @@ impl World for WorldRef {
                 None => {}
             }
             let n = (buf.len() as u64).min(limit) as usize;
+            if n < buf.len() {
+                SimWorld::probe(&mut g, "short_write_accepted");
+            }
             g.stdout.extend_from_slice(&buf[..n]);
             Ok(n)
         })();
